@@ -218,6 +218,12 @@ class DimEval:
                                                 "sum"):
             return args[0] if len(args) == 1 else \
                 self._homog(e, "extremum", *args)
+        if d in ("numpy.random.RandomState", "numpy.random.default_rng"):
+            return ANY                      # a generator object
+        if isinstance(f, ast.Attribute) and f.attr in (
+                "random_sample", "random", "rand", "uniform",
+                "standard_normal", "randn"):
+            return Fraction(0)              # plain numbers
         if isinstance(f, ast.Attribute) and f.attr in self.PASS_METHODS:
             return self.ev(f.value, env)
         if isinstance(f, ast.Attribute) and f.attr == "format":
